@@ -4,7 +4,7 @@ DECRYPT_MODEL = ["Base", "Time", "Xml", "Ns", "SchemaDefs", "Schema", "Types", "
 
 PROPS = {
     "C09": dict(
-        model_files=DECRYPT_MODEL,
+        model_files=DECRYPT_MODEL + ["Deflate", "GenPreludeD", "GenPreludeT", "GenPreludeDeflate", "GenDeflate", "P_GenDeflate"],
         trusted_base=[KERNEL, GEN, HARNESS,
                       "hand-written model Decrypt.v (decrypt_symmetric_key, decrypt_bytes, decrypt_assertions_o with explicit OPanic at every slice / index / nil dereference / panic() of types/encrypted_key.go, types/encrypted_assertion.go and decode_response.go decryptAssertions) tied to the code by the DecryptBytes correspondence run (bytes / error label / panic compared on every case)",
                       "switch case lists of DecryptBytes / DecryptSymmetricKey re-extracted from the source by gen/ (decrypt_bytes_cases, key_transport_cases, key_digest_cases)",
